@@ -767,3 +767,78 @@ mut('ok-driver-dec-tuple-assign', ['C01', 'C02'], M,
     [("        nbytes, value = unmarshallers[tcode](ct, data, offset, lendian, oobFDs)\n\n        offset += nbytes\n        values.append(value)\n\n    return offset - start_offset, values",
       "        res = unmarshallers[tcode](ct, data, offset, lendian, oobFDs)\n        offset = offset + res[0]\n        values.append(res[1])\n\n    return offset - start_offset, values")],
     kind='benign')
+
+# benign variants, batch 3 (client side) -----------------------------------------
+mut('ok-c09-loss-items-loop', ['C09', 'C08'], CL,
+    [("        for d, timeout in pending.values():\n            if timeout:\n                timeout.cancel()\n            d.errback(reason)",
+      "        for _serial, entry in pending.items():\n            d, timeout = entry\n            if timeout is not None and timeout:\n                timeout.cancel()\n            d.errback(reason)")], kind='benign')
+mut('ok-c09-established-inline', ['C09'], CL,
+    [("        established = self.busName is not None\n\n        if established:\n            # iterate a copy", "        if self.busName is not None:\n            # iterate a copy"),
+     ("        if established:\n            self.objHandler.connectionLost(reason)", "        if self.busName is not None:\n            self.objHandler.connectionLost(reason)")], kind='benign')
+mut('ok-c09-endpoint-iterator', ['C09'], CL,
+    [("    eplist.reverse()\n\n    def try_next_ep(err):\n        if eplist:\n            eplist.pop().connect(f).addErrback(try_next_ep)\n        else:",
+      "    eps = iter(eplist)\n\n    def try_next_ep(err):\n        ep = next(eps, None)\n        if ep is not None:\n            ep.connect(f).addErrback(try_next_ep)\n        else:")], kind='benign',
+    note='walk the address list with an iterator instead of reverse()+pop()')
+mut('ok-c08-error-values-condexpr', ['C08'], CL,
+    [("            e.message = ''\n            e.values = []\n            if merr.body:\n                if isinstance(merr.body[0], str):\n                    e.message = merr.body[0]\n                e.values = merr.body\n",
+      "            body = merr.body\n            e.message = ''\n            e.values = body if body else []\n            if body and isinstance(body[0], str):\n                e.message = body[0]\n")], kind='benign')
+mut('ok-c08-timeout-pop', ['C08'], CL,
+    [("        del self._pendingCalls[serial]\n        d.errback(error.TimeOut('Method call timed out'))",
+      "        self._pendingCalls.pop(serial)\n        d.errback(error.TimeOut('Method call timed out'))")], kind='benign')
+mut('ok-c08-register-local-entry', ['C08'], CL,
+    [("            if timeout:\n                timeout = reactor.callLater(\n                    timeout, self._onMethodTimeout, mcall.serial, d)\n\n            self._pendingCalls[mcall.serial] = (d, timeout)\n",
+      "            timer = None\n            if timeout:\n                timer = reactor.callLater(\n                    timeout, self._onMethodTimeout, mcall.serial, d)\n\n            self._pendingCalls[mcall.serial] = (d, timer)\n")], kind='benign')
+
+# benign variants, batch 3 (object side) -----------------------------------------
+mut('ok-c10-execute-kwargs', ['C10', 'C11'], OB,
+    [("        if m._dbusCaller:\n            if methodArguments:\n                return m(*methodArguments, dbusCaller=sender)\n            else:\n                return m(dbusCaller=sender)\n        else:\n            if methodArguments:\n                return m(*methodArguments)\n            else:\n                return m()\n",
+      "        kwargs = {}\n        if m._dbusCaller:\n            kwargs['dbusCaller'] = sender\n        return m(*(methodArguments or ()), **kwargs)\n")], kind='benign')
+mut('ok-c17-get-wrap-local', ['C17'], OB,
+    [("        if p.iprop.sig in marshal.variantClassMap:\n            return marshal.variantClassMap[p.iprop.sig](v)\n        else:\n            return v\n",
+      "        wrap = marshal.variantClassMap.get(p.iprop.sig)\n        return wrap(v) if wrap is not None else v\n")], kind='benign')
+mut('ok-c17-set-access-read', ['C17'], OB,
+    [("        if p.iprop.access not in ('write', 'readwrite'):\n            raise Exception('Property is not Writeable')",
+      "        if p.iprop.access == 'read':\n            raise Exception('Property is not Writeable')")], kind='benign')
+mut('ok-c16-unexport-pop', ['C16'], OB,
+    [("        o = self.exports[objectPath]\n        del self.exports[objectPath]\n", "        o = self.exports.pop(objectPath)\n")], kind='benign')
+mut('ok-c16-managed-items', ['C16', 'C17'], OB,
+    [("        for p in sorted(self.exports.keys()):\n            if not p.startswith(prefix) or p == objectPath:\n                continue\n            o = self.exports[p]\n",
+      "        for p, o in sorted(self.exports.items()):\n            if not p.startswith(prefix) or p == objectPath:\n                continue\n")], kind='benign')
+mut('ok-c10-searchcache-get', ['C10', 'C17', 'C11'], OB,
+    [("            if interfaceName:\n                if interfaceName in cache:\n                    d = getattr(cache[interfaceName], cacheAttr)\n                    if key in d:\n                        return d[key]\n",
+      "            if interfaceName:\n                ic = cache.get(interfaceName)\n                if ic is not None:\n                    d = getattr(ic, cacheAttr)\n                    if key in d:\n                        return d[key]\n")], kind='benign')
+
+# round-2 seeds as regression mutants --------------------------------------------
+twin('c09-prefix-stale-unix-path', ['C09'], '86e7419', ['C09.D2'], 'pre-fix twin')
+mut('c09-endpoint-dict-hoisted', ['C09'], 'txdbus/endpoints.py',
+    [("    epl = []\n\n    for ep_addr in addrString.split(';'):\n        d = {}\n", "    epl = []\n    d = {}\n\n    for ep_addr in addrString.split(';'):\n")], ['C09.D2'],
+    note='round-2 seed: keys of an earlier address entry leak into later ones')
+mut('c09-endpoint-kind-not-reset', ['C09'], 'txdbus/endpoints.py',
+    [("        d = {}\n        kind = None\n        ep = None\n", "        d = {}\n        ep = None\n"),
+     ("    epl = []\n\n    for ep_addr", "    epl = []\n    kind = None\n\n    for ep_addr")], ['C09.D2'])
+mut('c07-disconnecting-check-per-read', ['C07', 'C06'], PR,
+    [("            self._buffer = self._buffer + data\n            # Consume one line at a time", "            if self.transport.disconnecting:\n                return\n            self._buffer = self._buffer + data\n            # Consume one line at a time"),
+     ("                if self.transport.disconnecting:\n                    # this is necessary because the transport may be\n                    # told to lose the connection by a line within a\n                    # larger packet, and it is important to disregard\n                    # all the lines in that packet following the one\n                    # that told it to close.\n                    return\n", "")], ['C07.D5', 'C06.D3'],
+    note='round-2 seed')
+mut('c12-removematch-pops-all-ids', ['C12', 'C14'], BU,
+    [("        rule_ids = caller.matchRules.get(rule)\n", "        rule_ids = caller.matchRules.pop(rule, None)\n"),
+     ("        self.router.delMatch(rule_ids.pop())\n\n        if not rule_ids:\n            del caller.matchRules[rule]\n", "        self.router.delMatch(rule_ids.pop())\n")], ['C12.D5', 'C14.D5'],
+    note='round-2 seed: a rule text added twice can be removed only once')
+mut('c14-removematch-always-drops-entry', ['C14', 'C12'], BU,
+    [("        if not rule_ids:\n            del caller.matchRules[rule]\n", "        del caller.matchRules[rule]\n")], ['C14.D5', 'C12.D5'])
+mut('ok-c14-removematch-len-test', ['C14', 'C12'], BU,
+    [("        if not rule_ids:\n            del caller.matchRules[rule]\n", "        if len(rule_ids) == 0:\n            del caller.matchRules[rule]\n")], kind='benign')
+mut('ok-c14-removematch-keeps-empty-entry', ['C14', 'C12'], BU,
+    [("        self.router.delMatch(rule_ids.pop())\n\n        if not rule_ids:\n            del caller.matchRules[rule]\n", "        self.router.delMatch(rule_ids.pop())\n")], kind='benign',
+    note='an empty id list left behind is harmless: RemoveMatch treats it as not found')
+mut('c11-introspection-handler-shared-state', ['C11', 'C15'], IN,
+    [("        self.interfaces = []\n        self.member = None", "        self.member = None"),
+     ("    def __init__(self, replaceKnownInterfaces=False):\n        xml.sax.handler.ContentHandler.__init__(self)", "    interfaces = []\n\n    def __init__(self, replaceKnownInterfaces=False):\n        xml.sax.handler.ContentHandler.__init__(self)")], ['C11.D3', 'C15.D3'],
+    note='round-2 seed: parse state shared by every introspection')
+mut('c10-flags-elif-chain', ['C10', 'C03'], MS,
+    [("    m.expectReply = not (hval[2] & 0x1)\n    m.autoStart = not (hval[2] & 0x2)\n",
+      "    if hval[2] & 0x2:\n        m.autoStart = False\n    elif hval[2] & 0x1:\n        m.expectReply = False\n")], ['C10.D5', 'C03.D3'],
+    note='round-2 seed: both flag bits set parses as expectReply=True')
+mut('ok-c03-flags-if-chain', ['C10', 'C03'], MS,
+    [("    m.expectReply = not (hval[2] & 0x1)\n    m.autoStart = not (hval[2] & 0x2)\n",
+      "    m.expectReply = True\n    m.autoStart = True\n    if hval[2] & 0x2:\n        m.autoStart = False\n    if hval[2] & 0x1:\n        m.expectReply = False\n")], kind='benign')
